@@ -100,12 +100,20 @@ fn worker(slot: std::sync::Arc<Slot>) {
     let mut token: Option<tracing_enabled::LocalEnableState> = None;
     // first report: the view of a fresh thread
     slot.obs.store(1 + tracing_enabled::is_enabled() as u32, Release);
+    let mut idle = 0u32;
     loop {
         let c = slot.cmd.swap(0, Acquire);
         if c == 0 {
-            std::hint::spin_loop();
+            idle += 1;
+            if idle > 200 {
+                // a busy machine must not turn the lock-step into a crawl
+                std::thread::yield_now();
+            } else {
+                std::hint::spin_loop();
+            }
             continue;
         }
+        idle = 0;
         match c {
             10 => return,
             9 => {}
@@ -129,12 +137,18 @@ fn worker(slot: std::sync::Arc<Slot>) {
 }
 
 fn take_obs(slot: &Slot) -> bool {
+    let mut idle = 0u32;
     loop {
         let v = slot.obs.swap(0, std::sync::atomic::Ordering::Acquire);
         if v != 0 {
             return v == 2;
         }
-        std::hint::spin_loop();
+        idle += 1;
+        if idle > 200 {
+            std::thread::yield_now();
+        } else {
+            std::hint::spin_loop();
+        }
     }
 }
 
@@ -249,6 +263,7 @@ pub fn run_c20(args: &Args) -> i32 {
     // ---- engine A
     let suffix_len = args.tier.pick(1usize, 2);
     let mut shortest: BTreeMap<RefState, Vec<(usize, TOp)>> = BTreeMap::new();
+    let mut alternatives: BTreeMap<RefState, Vec<Vec<(usize, TOp)>>> = BTreeMap::new();
     let mut queue = VecDeque::new();
     shortest.insert(RefState::initial(), vec![]);
     queue.push_back(RefState::initial());
@@ -258,11 +273,18 @@ pub fn run_c20(args: &Args) -> i32 {
             for op in OPS {
                 let mut n = s;
                 n.apply(t, op);
+                let mut hh = h.clone();
+                hh.push((t, op));
                 if !shortest.contains_key(&n) {
-                    let mut hh = h.clone();
-                    hh.push((t, op));
                     shortest.insert(n, hh);
                     queue.push_back(n);
+                } else if n != s {
+                    // other ways into the same reference state: the implementation may hold state the
+                    // reference does not model, so a state is also entered through alternative histories
+                    let a = alternatives.entry(n).or_insert_with(Vec::new);
+                    if a.len() < 2 && !a.contains(&hh) && shortest[&n] != hh {
+                        a.push(hh);
+                    }
                 }
             }
         }
@@ -309,6 +331,36 @@ pub fn run_c20(args: &Args) -> i32 {
             }
         }
     }
+    // alternative entry histories (quick: one per state with one following operation; thorough: two,
+    // each followed by every operation and every suffix of length <= 1)
+    let mut alt_runs = 0u64;
+    for (_, alts) in alternatives.iter() {
+        for (ai, h) in alts.iter().enumerate() {
+            if args.tier == Tier::Quick && ai > 0 {
+                continue;
+            }
+            for t in 0..2 {
+                for op in OPS {
+                    let sufs: Vec<Vec<(usize, TOp)>> = if args.tier == Tier::Quick { vec![vec![]] } else { suffixes.iter().filter(|x| x.len() <= 1).cloned().collect() };
+                    for suf in sufs {
+                        let mut full = h.clone();
+                        full.push((t, op));
+                        full.extend(suf.iter().copied());
+                        executions += 1;
+                        alt_runs += 1;
+                        steps += full.len() as u64;
+                        if full.iter().any(|x| x.0 == 0) && full.iter().any(|x| x.0 == 1) {
+                            cross_thread += 1;
+                        }
+                        if let Some(d) = run_history(&full) {
+                            report.record(&[d], || hist_json(&full));
+                        }
+                    }
+                }
+            }
+        }
+    }
+    eprintln!("[C20] engine A: {alt_runs} executions through alternative entry histories");
     eprintln!("[C20] engine A: {} reference states, {executions} executions, {:.1}s", shortest.len(), report.start.elapsed().as_secs_f64());
     // ---- engine B
     let (lv, ld) = match loom_try(args.tier) {
@@ -337,7 +389,7 @@ pub fn run_c20(args: &Args) -> i32 {
             "traces_validated_against_impl": executions + schedules,
             "evaluations": executions + schedules,
             "distinct_nontrivial": cross_thread,
-            "rule": "non-trivial = engine-A histories in which BOTH threads perform operations (the isolation claim is about cross-thread effects). engine A: BFS over the reference states (global flag, two overrides, <=1 saved token per thread); from each state's shortest history every (thread, op) of the 8 operations followed by every suffix of length <= 1 (thorough 2), each history executed on two fresh OS threads driven in lock-step, both threads' is_enabled() compared with the reference after every step. engine B: loom on the unmodified tracing-enabled source (std shim exporting loom Cell / atomic / thread_local): every pair of programs of <= 2 operations (thorough: also 3-operation programs against <= 1-operation programs) on two loom threads, every interleaving loom's DPOR enumerates within the preemption bound, oracle = some sequential order respecting program order explains all observations and the final state.",
+            "rule": "non-trivial = engine-A histories in which BOTH threads perform operations (the isolation claim is about cross-thread effects). engine A: BFS over the reference states (global flag, two overrides, <=1 saved token per thread); from each state's shortest history every (thread, op) of the 8 operations followed by every suffix of length <= 1 (thorough 2), every state is additionally entered through one (thorough: two) alternative history, because the implementation may hold state the reference does not model; each history executed on two fresh OS threads driven in lock-step, both threads' is_enabled() compared with the reference after every step. engine B: loom on the unmodified tracing-enabled source (std shim exporting loom Cell / atomic / thread_local): every pair of programs of <= 2 operations (thorough: also 3-operation programs against <= 1-operation programs) on two loom threads, every interleaving loom's DPOR enumerates within the preemption bound, oracle = some sequential order respecting program order explains all observations and the final state.",
             "engine_a": {"reference_states": shortest.len(), "executions": executions, "steps": steps, "suffix_length": suffix_len},
             "engine_b": lv,
             "exhaustive": true,
